@@ -514,4 +514,105 @@ theorem cfbResult_err_iff (kvs : List (String × V)) (conv : V → GV) :
     | some k => rw [hf] at h; simp at h; simp [this]; exact h
 
 
+/-! ## `combine` -/
+
+theorem find_combine : findFn matchProg "combine" = some matchProg_combine := by rfl
+
+/-- a value that is a (possibly nil) slice -/
+def IsSlice (x : GV) : Prop := x = .nil ∨ ∃ xs, x = .slice xs
+
+def elemsOf : GV → List GV
+  | .slice xs => xs
+  | _ => []
+
+theorem sliceElems_of {x : GV} (h : IsSlice x) : sliceElems x = some (elemsOf x) := by
+  rcases h with h | ⟨xs, h⟩ <;> subst h <;> rfl
+
+/-- Go's `append(x, y...)` on slice values -/
+def appendG (x y : GV) : GV :=
+  if (elemsOf x).isEmpty && (elemsOf y).isEmpty then x else .slice (elemsOf x ++ elemsOf y)
+
+theorem appendG_isSlice {x y : GV} (hx : IsSlice x) : IsSlice (appendG x y) := by
+  unfold appendG; split
+  · exact hx
+  · exact Or.inr ⟨_, rfl⟩
+
+theorem elemsOf_appendG (x y : GV) : elemsOf (appendG x y) = elemsOf x ++ elemsOf y := by
+  unfold appendG; split
+  · next h => simp at h; simp [h.1, h.2]
+  · rfl
+
+theorem combine_loop (g : Env) (x0 : GV) (H : Heap) : ∀ (items : List (GV × GV)) (n : Nat) (acc : GV),
+    IsSlice acc → (∀ it ∈ items, IsSlice it.2) →
+    loopR (n + items.length + 20) matchProg g [("nbss", acc), ("bsss", x0)] H "" "_" "bss" items
+        [GS.assign false [GL.var "nbss"] [GE.call "append..." [GE.var "nbss", GE.var "bss"]]]
+      = .ok (.next, [("nbss", items.foldl (fun a it => appendG a it.2) acc), ("bsss", x0)], H) := by
+  intro items
+  induction items with
+  | nil => intro n acc _ _; simp [loopR]
+  | cons it items ih =>
+    intro n acc hacc hall
+    obtain ⟨ik, iv⟩ := it
+    have hiv : IsSlice iv := hall (ik, iv) (by simp)
+    have hrest : ∀ it ∈ items, IsSlice it.2 := fun it h => hall it (by simp [h])
+    have hi := ih n (appendG acc iv) (appendG_isSlice hacc) hrest
+    simp [loopR, sliceElems_of hacc, sliceElems_of hiv]
+    rw [show n + (items.length + 1) + 19 = n + items.length + 20 by omega]
+    simpa [appendG] using hi
+
+/-- what `combine` returns: nil for no lists, the one list itself, otherwise the lists appended -/
+def combineG : List GV → GV
+  | [] => .nil
+  | [x] => x
+  | xs => xs.foldl appendG .nil
+
+theorem foldl_appendG_elems (xs : List GV) : ∀ acc, elemsOf (xs.foldl appendG acc) = elemsOf acc ++ xs.flatMap elemsOf := by
+  induction xs with
+  | nil => intro acc; simp
+  | cons x xs ih => intro acc; simp [List.foldl, ih, elemsOf_appendG, List.append_assoc]
+
+/-- the binding sets of `combine`'s result are those of its arguments, in order (`List.flatten` in the model) -/
+theorem combineG_elems (xs : List GV) : elemsOf (combineG xs) = xs.flatMap elemsOf := by
+  match xs with
+  | [] => rfl
+  | [x] => simp [combineG]
+  | x :: y :: r =>
+    unfold combineG
+    rw [foldl_appendG_elems]; simp [elemsOf]
+
+theorem foldl_snd (items : List (GV × GV)) (acc : GV) :
+    items.foldl (fun a it => appendG a it.2) acc = (items.map (·.2)).foldl appendG acc := by
+  induction items generalizing acc with
+  | nil => rfl
+  | cons it items ih => simp [List.foldl, ih]
+
+theorem tr_combine (n : Nat) (g : Env) (H : Heap) (bsss : List GV) (hall : ∀ x ∈ bsss, IsSlice x) :
+    callFn (n + bsss.length + 40) matchProg g "combine" .nil [.slice bsss] H = .ok ([combineG bsss], H) := by
+  match bsss, hall with
+  | [], _ => simp [find_combine, matchProg_combine, goLen, combineG]
+  | [x], _ => simp [find_combine, matchProg_combine, goLen, combineG, indexV]
+  | x :: y :: r, hall =>
+    have hitems : rangeItems H (.slice (x :: y :: r)) =
+        some (((List.range (x :: y :: r).length).zip (x :: y :: r)).map (fun (i, v) => (GV.int i, v))) := rfl
+    have hsnd : (((List.range (x :: y :: r).length).zip (x :: y :: r)).map (fun (i, v) => (GV.int i, v))).map (·.2) = x :: y :: r := by
+      simp [List.map_map, Function.comp_def]
+      have := List.map_snd_zip (l₁ := List.range (x :: y :: r).length) (l₂ := x :: y :: r) (by simp)
+      simpa using this
+    have hlen : (((List.range (x :: y :: r).length).zip (x :: y :: r)).map (fun (i, v) => (GV.int i, v))).length = r.length + 2 := by simp
+    have hl := combine_loop g (.slice (x :: y :: r)) H _ (n + 13) .nil (Or.inl rfl)
+      (by intro it hit
+          have : it.2 ∈ (((List.range (x :: y :: r).length).zip (x :: y :: r)).map (fun (i, v) => (GV.int i, v))).map (·.2) :=
+            List.mem_map_of_mem hit
+          rw [hsnd] at this; exact hall _ this)
+    rw [foldl_snd, hsnd, hlen] at hl
+    have e1 : ((r.length : Int) + 1 + 1 == 0) = false := by rw [beq_eq_false_iff_ne]; omega
+    have e2 : ((r.length : Int) + 1 + 1 == 1) = false := by rw [beq_eq_false_iff_ne]; omega
+    rw [show n + (x :: y :: r).length + 40 = (n + (x :: y :: r).length + 39) + 1 from rfl]
+    simp only [callFn, find_combine]
+    simp [-callFn, matchProg_combine, goLen, e1, e2, hitems]
+    rw [show n + (r.length + 1 + 1) + 33 = n + 13 + (r.length + 2) + 20 by omega]
+    erw [hl]
+    simp [combineG]
+
+
 end Sheens.TrMatch
